@@ -803,6 +803,10 @@ def u_expr(e):
 U_DECO = "def deco(c):\n    h([k for k in vars(c) if k[:2] != '__'])\n    return c\n"
 
 
+U_STUBS = ("def g(k, v):\n    print('g', k, v)\n    return ('R', k, v)\ndef h(names):\n    print('h', names)\n"
+           "def r(v):\n    print('r', v)\n")
+
+
 def u_src(p) -> str:
     out = [f"{u_nm(x)} = {k}\n" for x, k in p["globals"]]
     if p["hook"]:
@@ -1264,10 +1268,11 @@ def check(run, mods, wd, rnd) -> dict:
                 hist["U:sem-unsupported"] += 1
     for src, (p, out) in u_fired.items():
         n_oracle += 1
-        b = run_text(src + "print(sorted((k, repr(v)) for k, v in vars(C1).items() if k[:2] != '__' or k[:3] == '__q'))\n")
+        tail = "print(sorted((k, repr(v)) for k, v in vars(C1).items() if k[:2] != '__' or k[:3] == '__q'))\n"
+        b = run_text(U_STUBS + src + tail)
         if "<raised" in b:
             continue
-        a = run_text(out + "print(sorted((k, repr(v)) for k, v in vars(C1).items() if k[:2] != '__' or k[:3] == '__q'))\n")
+        a = run_text(U_STUBS + out + tail)
         if a != b:
             case = {"source": src, "output": out, "before": b, "after": a, "problem": f"{b!r} before, {a!r} after"}
             f = match_finding(kf, site_u, case)
@@ -1365,7 +1370,7 @@ def check(run, mods, wd, rnd) -> dict:
                 if x:
                     searched.append(("fixes.undefine_unused_variables", {**d, **x, "problem": "found by the failing-input search"}))
             elif d.get("kind") == "rule-model" and d.get("output") and d.get("rule") in (site_u, site_d):
-                pre = D_PRELUDE if d["rule"] == site_d else ""
+                pre = D_PRELUDE if d["rule"] == site_d else U_STUBS
                 b, a = run_text(pre + d["source"]), run_text(pre + d["output"])
                 if "<raised" not in b and a != b:
                     searched.append((d["rule"], {**d, "before": b, "after": a, "problem": "found by the failing-input search"}))
